@@ -6,7 +6,7 @@ from typing import NamedTuple
 
 from func_adl.ast.syntatic_sugar import resolve_syntatic_sugar
 
-from vlib.sh.common import HI, LO, TWIN, L, attr, const, dump, lam, name, nt, pick, tick
+from vlib.sh.common import HI, LO, TWIN, L, attr, const, dump, lam, name, nt, pick, same_fast, tick
 
 
 @dataclass
@@ -84,23 +84,24 @@ def fields_of(cls):
 
 def c06b(code: int, npos: int, kwmask: int, perm: int, extra: int, v0: int, v1: int, v2: int, v3: int) -> str:
     """
-    pre: LO <= code < HI and 0 <= code < 20
+    pre: LO <= code < HI and 0 <= code < 30
     pre: 0 <= npos <= 5 and 0 <= kwmask < 16 and 0 <= perm < 6 and 0 <= extra <= 2
     post: (_ == '') != TWIN
     """
-    code = pick(code, max(LO, 0), min(HI, 20))
+    code = pick(code, max(LO, 0), min(HI, 30))
     cls = CLASSES[code % 10]
-    inside = code // 10          # 0: top of a lambda body, 1: nested in a tuple inside an inner lambda
+    inside = code // 10          # 0: top of a lambda body, 1: nested in a tuple inside an inner lambda, 2: the same call node OBJECT used twice (as after inlining a helper that mentions its parameter twice)
     names = fields_of(cls)
     n = len(names)
-    npos, kwmask, perm, extra = pick(npos, 0, 6), pick(kwmask, 0, 16), pick(perm, 0, 6), pick(extra, 0, 3)
-    if kwmask >= (1 << n) or (kwmask & ((1 << min(npos, n)) - 1)):
+    # range checks first (one solver-decided branch each), then case splits inside the narrowed ranges: no path is spent on a combination that is filtered out
+    if kwmask >= (1 << n) or npos > n + 1:
         return ""
-    if npos > n + 1:
-        return ""
+    npos, kwmask = pick(npos, 0, n + 2), pick(kwmask, 0, 1 << n)
+    # a keyword that names a field already bound positionally is a surplus argument (Python: "multiple values for argument")
     kwidx = [i for i in range(n) if (kwmask >> i) & 1]
     if perm >= len(PERMS[len(kwidx)]):
         return ""
+    perm, extra = pick(perm, 0, len(PERMS[len(kwidx)])), pick(extra, 0, 3)
     kwidx = [kwidx[i] for i in PERMS[len(kwidx)][perm]]
     vals = [v0, v1, v2, v3, v0 + v1]
     args = [ast.Constant(vals[i]) for i in range(npos)]
@@ -118,6 +119,8 @@ def c06b(code: int, npos: int, kwmask: int, perm: int, extra: int, v0: int, v1: 
     ctor = ast.Call(ast.Constant(cls), args, kws)
     if inside == 0:
         q = lam("e", ctor)
+    elif inside == 2:
+        q = lam("e", ast.Tuple([ctor, ctor], L))
     else:
         q = lam("e", ast.Call(ast.Attribute(attr("e", "js"), "Select", L), [lam("j", ast.Tuple([ctor, attr("j", "pt")], L))], []))
     tick()
@@ -136,9 +139,11 @@ def c06b(code: int, npos: int, kwmask: int, perm: int, extra: int, v0: int, v1: 
         calls = [x for x in ast.walk(r) if isinstance(x, ast.Call) and isinstance(x.func, ast.Constant)]
     if calls:
         return "constructor call left in the query"
-    if len(dicts) != 1:
-        return "expected exactly one dictionary"
+    if len(dicts) != (2 if inside == 2 else 1):
+        return "expected exactly one dictionary per constructor call"
     d = dicts[0]
+    if inside == 2 and not same_fast(dicts[0], dicts[1]):
+        return "the same constructor call lowered differently at its second use"
     got = {}
     for k, v in zip(d.keys, d.values):
         if not isinstance(k, ast.Constant) or not isinstance(k.value, str) or not isinstance(v, ast.Constant):
